@@ -88,6 +88,27 @@ pub fn c20(m: &mut Mon, w: &mut World, idx: usize) {
     }
 }
 
+/// A merge that dies on a signature mismatch for peer P in a script whose stream-fold last instruction holds
+/// calls addressed to P is the downstream face of finding F22 (P's last-instruction result was dropped under
+/// another generation grouping while P's signature still covers it); everything else is a plain merge failure.
+pub fn merge_fail_tag(m: &Mon, w: &World, msg: &str) -> &'static str {
+    if let Some(rest) = msg.split("signature mismatch for \"").nth(1) {
+        let peer = rest.split('"').next().unwrap_or("");
+        let hit = m.analysis.calls.values().any(|c| {
+            c.multi
+                && match &c.peer {
+                    crate::script::PeerRef::Lit(i) => w.ids.get(*i).map(|p| p == peer).unwrap_or(false),
+                    crate::script::PeerRef::Init => w.ids[0] == peer,
+                    _ => false,
+                }
+        });
+        if hit {
+            return "merge-failed-last-instruction";
+        }
+    }
+    "merge-failed"
+}
+
 // ---------------- C06: bogus ids against a twin without them ----------------
 pub fn c06_bogus(m: &mut Mon, w: &mut World, idx: usize) {
     let (peer, prev, cur, results, bogus, code) = {
@@ -243,7 +264,8 @@ pub fn c08(m: &mut Mon, w: &mut World, _rng: &mut Rng) {
                 results.push((format!("perm{order:?}"), knowledge(&d), erased_trace(&d)));
             }
             Err(e) => {
-                m.report(w, None, "C08", "merge-failed", format!("order {order:?}: {e}"));
+                let tag = merge_fail_tag(m, w, &e);
+                m.report(w, None, "C08", tag, format!("order {order:?}: {e}"));
                 return;
             }
         }
@@ -265,13 +287,15 @@ pub fn c08(m: &mut Mon, w: &mut World, _rng: &mut Rng) {
                         results.push((format!("grouped{order:?}/{cut}"), knowledge(&d), erased_trace(&d)));
                     }
                     _ => {
-                        m.report(w, None, "C08", "merge-failed", format!("grouped merge {order:?} cut {cut} failed at the top level: {}", o1.msg));
+                        let tag = merge_fail_tag(m, w, &o1.msg);
+                        m.report(w, None, "C08", tag, format!("grouped merge {order:?} cut {cut} failed at the top level: {}", o1.msg));
                         return;
                     }
                 }
             }
             (Err(e), _) | (_, Err(e)) => {
-                m.report(w, None, "C08", "merge-failed", format!("grouped {order:?}/{cut}: {e}"));
+                let tag = merge_fail_tag(m, w, &e);
+                m.report(w, None, "C08", tag, format!("grouped {order:?}/{cut}: {e}"));
                 return;
             }
         }
@@ -326,7 +350,8 @@ pub fn c08(m: &mut Mon, w: &mut World, _rng: &mut Rng) {
             }
         }
         Err(e) => {
-            m.report(w, None, "C08", "merge-failed", format!("at participant {p}: {e}"));
+            let tag = merge_fail_tag(m, w, &e);
+            m.report(w, None, "C08", tag, format!("at participant {p}: {e}"));
             return;
         }
     }
